@@ -108,6 +108,8 @@ PlainOK(text) == LET ls == Lines(text) IN
                  \/ {i \in 1..Len(ls) : IsHeader(ls[i])} = {}
                  \/ \E i \in 1..Len(ls) : IsKV(ls[i]) /\ SecAt(ls, i) = Top
 
+HasTopEntries(text) == LET ls == Lines(text) IN \E i \in 1..Len(ls) : IsKV(ls[i]) /\ SecAt(ls, i) = Top
+
 \* the defect of the unchanged tree (DESIGN.md section 7): the reader stops before a last line that has no newline
 EndsWithNewline(text) == text = <<>> \/ text[Len(text)] = LF
 LastLineHazard(text) == ~EndsWithNewline(text) /\ IsKV(Lines(text)[Len(Lines(text))])
@@ -159,6 +161,9 @@ NumText(c) ==
             THEN IF n <= c.x + 1 THEN sign \o ds \o zeros(c.x + 1 - n)
                  ELSE sign \o SubSeq(ds, 1, c.x + 1) \o <<46>> \o SubSeq(ds, c.x + 2, n)
        ELSE sign \o <<48, 46>> \o zeros(-c.x - 1) \o ds
+\* the defect of the unchanged tree found by this check: the reader scales the integer mantissa by pow(10, e) with
+\* e = x - (digits - 1); below about -307 that power is subnormal or zero and the digits are lost
+TinyScale(c) == c.t = "n" /\ c.digs # <<0>> /\ (c.x < -4) /\ c.x - (Len(c.digs) - 1) < -307
 \* what a reader returns for a written cell: the type and the text (numbers: the 15 significant digits written)
 Norm(c) == [t |-> c.t, s |-> IF c.t = "n" THEN NumText(c) ELSE c.s]
 NormRows(rows) == [i \in 1..Len(rows) |-> [j \in 1..Len(rows[i]) |-> Norm(rows[i][j])]]
@@ -214,7 +219,10 @@ AddLine == /\ Part = "ini" /\ isets = <<>> /\ Len(itext) < MaxLines
            /\ UNCHANGED <<istyle, isets, crows, ccols>>
 \* set("section/key", v); a top-level key only where a plain name addresses the top section
 AddSet == /\ Part = "ini" /\ Len(isets) < MaxSets
-          /\ \E sk \in SetNames : /\ (sk[1] = Top => PlainOK(IText))
+          /\ \E sk \in SetNames : /\ (IF sk[1] = Top THEN PlainOK(IText) ELSE TRUE)
+                                  \* (a new key set to "" is not persisted by design; if it would have been the only
+                                  \*  top-level entry, plain names address another section afterwards)
+                                  /\ (IF sk[1] = Top /\ SetValues[Len(isets) + 1] = <<>> THEN HasTopEntries(IText) ELSE TRUE)
                                   /\ isets' = Append(isets, [sec |-> sk[1], key |-> sk[2], val |-> SetValues[Len(isets) + 1]])
           /\ UNCHANGED <<itext, istyle, crows, ccols>>
 RowsDone == crows = <<>> \/ Len(crows[Len(crows)]) = ccols
@@ -248,7 +256,8 @@ CsvCase(rows, n) ==
     [k |-> "csv", cols |-> n,
      rows |-> [i \in 1..Len(rows) |-> [j \in 1..Len(rows[i]) |->
                   IF rows[i][j].t = "n" THEN [t |-> "n", s |-> NumText(rows[i][j])] ELSE [t |-> "s", s |-> rows[i][j].s]]],
-     file |-> CsvText(rows, n), hz |-> {}]
+     file |-> CsvText(rows, n),
+     hz |-> IF \E i \in 1..Len(rows) : \E j \in 1..Len(rows[i]) : TinyScale(rows[i][j]) THEN {"TinyNumberScale"} ELSE {}]
 Emit == IF Part = "ini" THEN PrintT(ToJson(IniCase(TextOf(itext', istyle'), isets')))
         ELSE IF crows' = <<>> \/ Len(crows'[Len(crows')]) = ccols' THEN PrintT(ToJson(CsvCase(crows', ccols')))
         ELSE TRUE
